@@ -190,7 +190,7 @@ def extract_tables(text, G_ts_decl, G_nts_decl):
     start = int(m.group(1))
 
     def table_body(name):
-        mm = re.search(r"^static %s: \[\[.*?; (\d+)\]; (\d+)\] = \[\n(.*?)^\];" % re.escape(name), text, re.S | re.M)
+        mm = re.search(r"^(?:static|const) %s: \[\[.*?; (\d+)\]; (\d+)\] = \[\n(.*?)^\];" % re.escape(name), text, re.S | re.M)
         if not mm:
             raise FormatDrift("static %s not found" % name)
         return int(mm.group(1)), int(mm.group(2)), mm.group(3)
